@@ -293,6 +293,7 @@ impl World {
     /// Emulate one decoded privileged instruction.  Returns false if it is not handled here.
     unsafe fn emulate(&mut self, ctx: &mut Ctx, kind: Kind, len: usize) -> bool {
         let next = ctx.rip() + len as u64;
+        self.cpu.tick();
         match kind {
             Kind::MovFromCr { cr, gpr } => {
                 if let Some(v) = self.cpu.read_cr(cr) {
